@@ -71,9 +71,12 @@ _SPEC: SeqSpec | None = None   # set in the parent before the pool forks, inheri
 
 
 def _install_listdir(order: str):
+    if getattr(os.listdir, '_dosmc', None) is not None and getattr(os.listdir, '_dosmc') != order:
+        os.listdir = os.listdir._prev       # a previous pass of this process installed another order: undo it first
     if order == 'native' or getattr(os.listdir, '_dosmc', None) == order:
         return
-    real = common.REAL['os.listdir']
+    prev = os.listdir
+    real = prev
     root = common.scratch_root()
 
     def listdir(path='.'):
@@ -85,6 +88,7 @@ def _install_listdir(order: str):
             pass
         return out
     listdir._dosmc = order  # type: ignore[attr-defined]
+    listdir._prev = prev  # type: ignore[attr-defined]
     os.listdir = listdir
 
 
